@@ -13,6 +13,8 @@ from ..core import short_exc
 LEAF_KINDS = ["in", "out", "inout", "port", "role_hd", "role_dh", "plain"]
 DEEP_KINDS = ["in", "out", "role_hd", "plain"]
 FLIPS = ["no", "ctor", "fn"]
+TOP_FLIPS = ["no", "ctor", "fn", "fn_of_ctor", "fn_of_fn"]  # flipped() of an already flipped instance un-flips it
+NET_FLIP = {"no": 0, "ctor": 1, "fn": 1, "fn_of_ctor": 0, "fn_of_fn": 0}
 ROLES = [None, "HOST", "DEVICE", "OTHER"]
 
 
@@ -37,9 +39,9 @@ def ref_flatten(tree, inst_name, is_port, inst_flip, inst_role):
                 d = "NONE"
             out["_".join([inst_name] + path + [name])] = (width, d)
         for name, sub, flip, srole in t["subs"]:
-            go(sub, path + [name], flips + (1 if flip != "no" else 0), srole)
+            go(sub, path + [name], flips + NET_FLIP[flip], srole)
 
-    go(tree, [], 1 if inst_flip != "no" else 0, inst_role)
+    go(tree, [], NET_FLIP[inst_flip], inst_role)
     return out
 
 
@@ -71,14 +73,21 @@ def build_bundle(h, tree, counter):
         kw = {}
         if srole:
             kw["role"] = getattr(sb.roles, srole)
-        if flip == "ctor":
-            inst = sb(flipped=True, **kw)
-        elif flip == "fn":
-            inst = h.flipped(sb(**kw))
-        else:
-            inst = sb(**kw)
+        inst = mk_flipped(h, sb, flip, kw)
         setattr(b, name, inst)
     return b
+
+
+def mk_flipped(h, b, flip, kw):
+    if flip == "ctor":
+        return b(flipped=True, **kw)
+    if flip == "fn":
+        return h.flipped(b(**kw))
+    if flip == "fn_of_ctor":
+        return h.flipped(b(flipped=True, **kw))
+    if flip == "fn_of_fn":
+        return h.flipped(h.flipped(b(**kw)))
+    return b(**kw)
 
 
 def _one(item):
@@ -91,12 +100,7 @@ def _one(item):
         kw = dict(port=is_port)
         if inst_role:
             kw["role"] = getattr(b.roles, inst_role)
-        if inst_flip == "ctor":
-            bi = b(flipped=True, **kw)
-        elif inst_flip == "fn":
-            bi = h.flipped(b(**kw))
-        else:
-            bi = b(**kw)
+        bi = mk_flipped(h, b, inst_flip, kw)
         if style == "class":
             m = h.module(type("Subj", (), {"bb": bi, "zz": h.Signal()}))
         else:
@@ -138,7 +142,7 @@ def flat_trees():
 
 def chain_trees(depth, thorough):
     """root(leaf k1) -> s(leaf k2) [-> t(leaf k3)] with a flip and a role at every level."""
-    lv2 = [(k, f, r) for k in DEEP_KINDS for f in FLIPS for r in (None, "HOST", "DEVICE")]
+    lv2 = [(k, f, r) for k in DEEP_KINDS for f in FLIPS + ["fn_of_fn"] for r in (None, "HOST", "DEVICE")]
     lv3 = [(k, f, r) for k in DEEP_KINDS for f in FLIPS for r in ((None, "HOST", "DEVICE") if thorough else (None, "HOST"))]
     for k1 in LEAF_KINDS:
         for (k2, f2, r2) in lv2:
@@ -161,7 +165,7 @@ def fan_trees():
 
 def run(ctx):
     items = []
-    tops = [(p, f, r) for p in (True, False) for f in FLIPS for r in ROLES]
+    tops = [(p, f, r) for p in (True, False) for f in TOP_FLIPS for r in ROLES]
     fam_sizes = {}
 
     def add(fam, trees, tops_sel, stride=1):
